@@ -1268,4 +1268,413 @@ theorem Reach.linv {P ops m} (h : Reach P ops m) (hP : P.repaired = true) (hG : 
     exact linv_startOp (ih (by omega)) hq o
   | step hr ih => exact linv_step hP hG (ih hG)
 
+
+/-! ## what one step adds to the log -/
+
+def isOpRaised : Ev → Bool
+  | .opRaised => true
+  | _ => false
+
+/-- the events a step appends: a callback invocation records the registry as it is at that moment; `opRaised` is recorded
+only by the bottom frame of an operation when an exception reaches it -/
+structure LogStep (c : Core) (x : Bool) (f : Frame) (c' : Core) : Prop where
+  ext : ∃ l, c'.log = c.log ++ l ∧ (∀ id snap, Ev.fired id snap ∈ l → snap = c.comps) ∧
+        (Ev.opRaised ∈ l → f = .opEnd ∧ x = true)
+
+theorem logStep_same {c : Core} {x : Bool} {f : Frame} {c' : Core} (h : c'.log = c.log) : LogStep c x f c' :=
+  ⟨[], by simp [h], by simp, by simp⟩
+
+theorem logStep_one {c : Core} {x : Bool} {f : Frame} {c' : Core} {ev : Ev} (h : c'.log = c.log ++ [ev])
+    (h1 : ∀ id snap, ev = Ev.fired id snap → snap = c.comps) (h2 : ev = .opRaised → f = .opEnd ∧ x = true) :
+    LogStep c x f c' :=
+  ⟨[ev], h, by intro id snap hm; exact h1 id snap (List.mem_singleton.1 hm).symm,
+   by intro hm; exact h2 (List.mem_singleton.1 hm).symm⟩
+
+theorem logStep_waiterNotify {c : Core} {x : Bool} {f : Frame} : LogStep c x f (waiterNotify c) := by
+  unfold waiterNotify; split
+  · exact logStep_same rfl
+  · exact logStep_one rfl (by simp) (by simp)
+
+theorem logStep_doQuit {P : Prog} {c : Core} {x : Bool} {f : Frame} : LogStep c x f (doQuit P c).1 := by
+  unfold doQuit; split
+  · exact logStep_same rfl
+  · split
+    · exact logStep_same rfl
+    · exact logStep_one rfl (by simp) (by simp)
+
+theorem logStep_declareStep {P : Prog} {c : Core} {x : Bool} {f : Frame} (deps : List Name) (b : Nat) (tail : List Frame) :
+    LogStep c x f (declareStep P c deps b tail).1 := by
+  simp only [declareStep]; split
+  · exact logStep_one (ev := .fired c.nextId c.comps) rfl (by intro id snap h; injection h with _ h2; exact h2.symm) (by simp)
+  · exact logStep_same rfl
+
+theorem logStep_stepAct {P : Prog} {c : Core} {x : Bool} {f : Frame} (a : Act) : LogStep c x f (stepAct P c a).1 := by
+  cases a with
+  | register n => exact logStep_same rfl
+  | declare deps b => exact logStep_declareStep deps b []
+  | listen deps b => exact logStep_declareStep deps b [.notifyIfUp]
+  | getDeferral => exact logStep_same rfl
+  | raise => exact logStep_same rfl
+  | quit =>
+    simp only [stepAct]; split
+    · exact logStep_same rfl
+    · exact logStep_doQuit
+  | release k =>
+    simp only [stepAct]; split
+    · exact logStep_same rfl
+    · split
+      · exact logStep_same rfl
+      · split
+        · exact logStep_one (ev := .up (c.deferrals.erase k).length) rfl (by simp) (by simp)
+        · exact logStep_same rfl
+
+theorem logStep_stepTop {P : Prog} {c : Core} (x : Bool) (f : Frame) : LogStep c x f (stepTop P c x f).1 := by
+  unfold stepTop
+  split
+  · rename_i hx
+    cases f with
+    | cbEnd id => exact logStep_one rfl (by simp) (by simp)
+    | quitCont => exact logStep_one rfl (by simp) (by simp)
+    | ticks n => exact logStep_one rfl (by simp) (by simp)
+    | opEnd => exact logStep_one rfl (by simp) (by simp [hx])
+    | script a => exact logStep_same rfl
+    | pass a b => exact logStep_same rfl
+    | notifyIfUp => exact logStep_same rfl
+    | goUpStart => exact logStep_same rfl
+    | goUpCont => exact logStep_same rfl
+    | stage2Cont => exact logStep_same rfl
+  · cases f with
+    | script acts =>
+      cases acts with
+      | nil => exact logStep_same rfl
+      | cons a as => exact logStep_stepAct a
+    | pass snap ch =>
+      simp only [stepNorm]
+      unfold stepPass
+      split
+      · exact logStep_same rfl
+      · exact logStep_same rfl
+      · split
+        · exact logStep_one (ev := .fired _ c.comps) rfl (by intro id snap h; injection h with _ h2; exact h2.symm) (by simp)
+        · exact logStep_same rfl
+    | cbEnd id => exact logStep_same rfl
+    | notifyIfUp =>
+      simp only [stepNorm]; split
+      · exact logStep_same rfl
+      · exact logStep_waiterNotify
+    | goUpStart => exact logStep_one (ev := .goingUp) rfl (by simp) (by simp)
+    | goUpCont =>
+      simp only [stepNorm]; split
+      · exact logStep_one (ev := .up c.deferrals.length) rfl (by simp) (by simp)
+      · exact logStep_same rfl
+    | stage2Cont => exact logStep_waiterNotify
+    | quitCont => exact logStep_one (ev := .down) rfl (by simp) (by simp)
+    | ticks n =>
+      cases n with
+      | zero => exact logStep_same rfl
+      | succ n => exact logStep_doQuit
+    | opEnd => exact logStep_same rfl
+
+
+/-! ## `goUp` delivers GoingUp or raises -/
+
+@[simp] theorem waiterNotify_stage (c : Core) : (waiterNotify c).stage = c.stage := by
+  unfold waiterNotify; split <;> rfl
+
+theorem stage_pos_doQuit {P : Prog} {c : Core} (h : 1 ≤ c.stage) : 1 ≤ (doQuit P c).1.stage := by
+  unfold doQuit; split
+  · exact h
+  · split <;> exact h
+
+theorem stage_pos_stepAct {P : Prog} {c : Core} (h : 1 ≤ c.stage) (a : Act) : 1 ≤ (stepAct P c a).1.stage := by
+  cases a with
+  | register n => exact h
+  | declare deps b => simp only [stepAct, declareStep]; split <;> exact h
+  | listen deps b => simp only [stepAct, declareStep]; split <;> exact h
+  | getDeferral => exact h
+  | raise => exact h
+  | quit =>
+    simp only [stepAct]; split
+    · exact h
+    · exact stage_pos_doQuit h
+  | release k =>
+    simp only [stepAct]; split
+    · exact h
+    · split
+      · exact h
+      · split
+        · show 1 ≤ 2; omega
+        · exact h
+
+theorem stage_pos_stepTop {P : Prog} {c : Core} (h : 1 ≤ c.stage) (x : Bool) (f : Frame) : 1 ≤ (stepTop P c x f).1.stage := by
+  unfold stepTop
+  split
+  · cases f <;> exact h
+  · cases f with
+    | script acts =>
+      cases acts with
+      | nil => exact h
+      | cons a as => exact stage_pos_stepAct h a
+    | pass snap ch =>
+      simp only [stepNorm]; unfold stepPass
+      split
+      · exact h
+      · exact h
+      · split <;> exact h
+    | cbEnd id => exact h
+    | notifyIfUp => simp only [stepNorm]; split; exact h; simpa using h
+    | goUpStart => exact h
+    | goUpCont =>
+      simp only [stepNorm]; split
+      · show 1 ≤ 2; omega
+      · show 1 ≤ 1; omega
+    | stage2Cont => simpa [stepNorm] using h
+    | quitCont => exact h
+    | ticks n =>
+      cases n with
+      | zero => exact h
+      | succ n => exact stage_pos_doQuit h
+    | opEnd => exact h
+
+/-- progress of a `goUp()` call: not yet at the raise, inside GoingUp delivery, delivered (stage ≥ 1), unwinding to the caller,
+or returned to the caller with an exception -/
+def GoUpProgress (m : M) : Prop :=
+  (m.stack = [.goUpStart, .opEnd] ∧ m.exc = false) ∨ (∃ upper, m.stack = upper ++ [.goUpCont, .opEnd]) ∨
+  1 ≤ m.core.stage ∨ (m.exc = true ∧ m.stack = [.opEnd]) ∨ (m.stack = [] ∧ m.core.log.getLast? = some .opRaised)
+
+theorem goUpProgress_step {P : Prog} {m : M} (h : GoUpProgress m) : GoUpProgress (step P m) := by
+  obtain ⟨c, st, x⟩ := m
+  rcases h with ⟨hst, hx⟩ | ⟨upper, hst⟩ | hs | ⟨hx, hst⟩ | ⟨hst, hl⟩
+  · simp only at hst hx; subst hst hx
+    right; left
+    exact ⟨[.script P.onGoingUp], by simp [step, stepTop, stepNorm]⟩
+  · simp only at hst; subst hst
+    cases upper with
+    | nil =>
+      cases x with
+      | true => right; right; right; left; simp [step, stepTop, stepExc]
+      | false =>
+        right; right; left
+        show 1 ≤ (stepTop P c false .goUpCont).1.stage
+        simp only [stepTop, stepNorm, Bool.false_eq_true, ↓reduceIte]
+        split
+        · show 1 ≤ 2; omega
+        · show 1 ≤ 1; omega
+    | cons f u =>
+      right; left
+      exact ⟨(stepTop P c x f).2.1 ++ u, by simp [step, List.append_assoc]⟩
+  · right; right; left
+    cases st with
+    | nil => exact hs
+    | cons f rest => exact stage_pos_stepTop hs x f
+  · simp only at hx hst; subst hx hst
+    right; right; right; right
+    simp [step, stepTop, stepExc, Core.logEv]
+  · simp only at hst; subst hst
+    right; right; right; right
+    exact ⟨rfl, hl⟩
+
+theorem goUpProgress_run {P : Prog} (n : Nat) {m : M} (h : GoUpProgress m) : GoUpProgress (run P n m) := by
+  induction n generalizing m with
+  | zero => exact h
+  | succ n ih =>
+    unfold Pox.Core.run
+    split
+    · exact h
+    · exact ih (goUpProgress_step h)
+
+
+/-! ## `register`, `call_when_ready`, `listen_to_dependencies` never raise to their caller -/
+
+def Act.isRendezvous : Act → Bool
+  | .register _ => true
+  | .declare _ _ => true
+  | .listen _ _ => true
+  | _ => false
+
+/-- what is left of the operation's own code below the callbacks it runs: nothing in it can raise -/
+inductive Base : List Frame → Prop
+  | nil : Base []
+  | script : Base [.script []]
+  | notify : Base [.notifyIfUp, .script []]
+  | pass (s : List Entry) (ch : Bool) : Base [.pass s ch, .script []]
+
+theorem noOpEnd_doQuit {P : Prog} {c : Core} : ∀ g ∈ (doQuit P c).2, g ≠ Frame.opEnd := by
+  unfold doQuit; split
+  · simp
+  · split <;> simp
+
+theorem noOpEnd_stepAct {P : Prog} {c : Core} (a : Act) : ∀ g ∈ (stepAct P c a).2.1, g ≠ Frame.opEnd := by
+  cases a with
+  | register n => simp [stepAct]
+  | declare deps b => simp only [stepAct, declareStep]; split <;> simp
+  | listen deps b => simp only [stepAct, declareStep]; split <;> simp
+  | getDeferral => simp [stepAct]
+  | raise => simp [stepAct]
+  | quit =>
+    simp only [stepAct]; split
+    · simp
+    · exact noOpEnd_doQuit
+  | release k =>
+    simp only [stepAct]; split
+    · simp
+    · split
+      · simp
+      · split <;> simp [enterStage2]
+
+/-- the bottom frame of an operation is never pushed by a step -/
+theorem noOpEnd_stepTop {P : Prog} {c : Core} (x : Bool) (f : Frame) : ∀ g ∈ (stepTop P c x f).2.1, g ≠ Frame.opEnd := by
+  unfold stepTop
+  split
+  · cases f <;> simp [stepExc]
+  · cases f with
+    | script acts =>
+      cases acts with
+      | nil => simp [stepNorm]
+      | cons a as =>
+        intro g hg
+        simp only [stepNorm, List.mem_append, List.mem_singleton] at hg
+        rcases hg with hg | rfl
+        · exact noOpEnd_stepAct a g hg
+        · simp
+    | pass snap ch =>
+      simp only [stepNorm]; unfold stepPass
+      split
+      · simp
+      · simp
+      · split <;> simp
+    | cbEnd id => simp [stepNorm]
+    | notifyIfUp => simp [stepNorm]
+    | goUpStart => simp [stepNorm]
+    | goUpCont => simp only [stepNorm]; split <;> simp [enterStage2]
+    | stage2Cont => simp [stepNorm]
+    | quitCont => simp [stepNorm]
+    | ticks n =>
+      cases n with
+      | zero => simp [stepNorm]
+      | succ n =>
+        intro g hg
+        simp only [stepNorm, List.mem_append, List.mem_singleton] at hg
+        rcases hg with hg | rfl
+        · exact noOpEnd_doQuit g hg
+        · simp
+    | opEnd => simp [stepNorm]
+
+/-- every piece of user code on the stack runs inside the `try` of a callback (`cbEnd` below it) -/
+def Guarded (m : M) : Prop :=
+  m.stack = [] ∨
+  (∃ a, a.isRendezvous = true ∧ m.stack = [.script [a], .opEnd] ∧ m.exc = false) ∨
+  (∃ base, Base base ∧ m.stack = base ++ [.opEnd] ∧ m.exc = false) ∨
+  (∃ u id base, Base base ∧ (∀ g ∈ u, g ≠ Frame.opEnd) ∧ m.stack = u ++ [.cbEnd id] ++ base ++ [.opEnd])
+
+theorem guarded_step {P : Prog} {m : M} (h : Guarded m) : Guarded (step P m) := by
+  obtain ⟨c, st, x⟩ := m
+  rcases h with hst | ⟨a, ha, hst, hx⟩ | ⟨base, hb, hst, hx⟩ | ⟨u, id, base, hb, hu, hst⟩
+  · simp only at hst; subst hst; left; rfl
+  · simp only at hst hx; subst hst hx
+    cases a with
+    | register n =>
+      right; right; left
+      exact ⟨_, Base.pass [] true, by simp [step, stepTop, stepNorm, stepAct], by simp [step, stepTop, stepNorm, stepAct]⟩
+    | declare deps b =>
+      by_cases hr : ready { c with waiters := c.waiters ++ [⟨c.nextId, deps, b⟩], nextId := c.nextId + 1,
+                                   decls := c.decls ++ [⟨c.nextId, deps, b⟩] } ⟨c.nextId, deps, b⟩ = true
+      · right; right; right
+        exact ⟨[.script (P.body b)], c.nextId, _, Base.script, by simp,
+          by simp [step, stepTop, stepNorm, stepAct, declareStep, hr]⟩
+      · right; right; left
+        exact ⟨_, Base.script, by simp [step, stepTop, stepNorm, stepAct, declareStep, hr],
+          by simp [step, stepTop, stepNorm, stepAct, declareStep, hr]⟩
+    | listen deps b =>
+      by_cases hr : ready { c with waiters := c.waiters ++ [⟨c.nextId, deps, b⟩], nextId := c.nextId + 1,
+                                   decls := c.decls ++ [⟨c.nextId, deps, b⟩] } ⟨c.nextId, deps, b⟩ = true
+      · right; right; right
+        exact ⟨[.script (P.body b)], c.nextId, _, Base.notify, by simp,
+          by simp [step, stepTop, stepNorm, stepAct, declareStep, hr]⟩
+      · right; right; left
+        exact ⟨_, Base.notify, by simp [step, stepTop, stepNorm, stepAct, declareStep, hr],
+          by simp [step, stepTop, stepNorm, stepAct, declareStep, hr]⟩
+    | getDeferral => simp [Act.isRendezvous] at ha
+    | release k => simp [Act.isRendezvous] at ha
+    | quit => simp [Act.isRendezvous] at ha
+    | raise => simp [Act.isRendezvous] at ha
+  · simp only at hst hx; subst hst hx
+    cases hb with
+    | nil => left; simp [step, stepTop, stepNorm]
+    | script => right; right; left; exact ⟨_, Base.nil, by simp [step, stepTop, stepNorm], by simp [step, stepTop, stepNorm]⟩
+    | notify =>
+      right; right; left
+      exact ⟨_, Base.script, by simp [step, stepTop, stepNorm], by simp [step, stepTop, stepNorm]⟩
+    | pass s ch =>
+      cases s with
+      | nil =>
+        cases ch with
+        | false =>
+          right; right; left
+          exact ⟨_, Base.script, by simp [step, stepTop, stepNorm, stepPass], by simp [step, stepTop, stepNorm, stepPass]⟩
+        | true =>
+          right; right; left
+          exact ⟨_, Base.pass c.waiters false, by simp [step, stepTop, stepNorm, stepPass],
+            by simp [step, stepTop, stepNorm, stepPass]⟩
+      | cons e es =>
+        by_cases hf : e ∈ c.waiters ∧ ready c e = true
+        · right; right; right
+          exact ⟨[.script (P.body e.body)], e.id, _, Base.pass es true, by simp,
+            by simp [step, stepTop, stepNorm, stepPass, hf]⟩
+        · right; right; left
+          exact ⟨_, Base.pass es ch, by simp [step, stepTop, stepNorm, stepPass, hf],
+            by simp [step, stepTop, stepNorm, stepPass, hf]⟩
+  · simp only at hst; subst hst
+    cases u with
+    | nil =>
+      right; right; left
+      refine ⟨base, hb, ?_, ?_⟩ <;> cases x <;> simp [step, stepTop, stepNorm, stepExc]
+    | cons f u' =>
+      right; right; right
+      refine ⟨(stepTop P c x f).2.1 ++ u', id, base, hb, ?_, by simp [step, List.append_assoc]⟩
+      intro g hg
+      rcases List.mem_append.1 hg with hg | hg
+      · exact noOpEnd_stepTop x f g hg
+      · exact hu g (by simp [hg])
+
+theorem guarded_no_opRaised {P : Prog} {m : M} (h : Guarded m) :
+    (step P m).core.log.countP isOpRaised = m.core.log.countP isOpRaised := by
+  obtain ⟨c, st, x⟩ := m
+  cases st with
+  | nil => rfl
+  | cons f rest =>
+    obtain ⟨l, hl, _, hop⟩ := (logStep_stepTop (P := P) (c := c) x f).ext
+    show (stepTop P c x f).1.log.countP isOpRaised = c.log.countP isOpRaised
+    rw [hl]
+    apply countP_append_silent
+    intro ev hev
+    cases ev <;> try rfl
+    -- an `opRaised` record would need the bottom frame on top with an exception pending
+    exfalso
+    obtain ⟨hf, hx⟩ := hop hev
+    subst hf hx
+    rcases h with hst | ⟨a, _, hst, _⟩ | ⟨base, hb, hst, hx⟩ | ⟨u, id, base, hb, hu, hst⟩
+    · cases hst
+    · cases hst
+    · cases hx
+    · simp only at hst
+      cases u with
+      | nil => cases hst
+      | cons g u' =>
+        have hg : g = Frame.opEnd := by
+          have := List.head_eq_of_cons_eq hst
+          exact this.symm
+        exact hu g (by simp) hg
+
+theorem guarded_run {P : Prog} (n : Nat) {m : M} (h : Guarded m) :
+    Guarded (run P n m) ∧ (run P n m).core.log.countP isOpRaised = m.core.log.countP isOpRaised := by
+  induction n generalizing m with
+  | zero => exact ⟨h, rfl⟩
+  | succ n ih =>
+    unfold Pox.Core.run
+    split
+    · exact ⟨h, rfl⟩
+    · have := ih (guarded_step (P := P) h)
+      exact ⟨this.1, by rw [this.2, guarded_no_opRaised h]⟩
+
 end Pox.Core
